@@ -185,6 +185,23 @@ class Ctx:
                         fake = _ast.copy_location(_ast.Call(func=_ast.Attribute(value=call.args[0], attr=dm.name, ctx=_ast.Load()), args=[], keywords=[]), call)
                         return run_method(dm, v, fake, ev, depth)
                 return _oe.NOT_MODELLED
+            if depth < max_depth and isinstance(call.func, _ast.Subscript):
+                # <table>[key](...) where the table holds classes of the analysed program (a registry of record classes): the class selected
+                # by the key is instantiated through its own __init__
+                try:
+                    kv = ev.ev(call.func)
+                except _oe.Unsupported:
+                    kv = None
+                if isinstance(kv, _oe.Obj) and set(kv.__dict__) == {"_cls"}:
+                    k0 = kv.__dict__["_cls"]
+                    obj = _oe.Obj(_cls=k0)
+                    init = prog.find_method(k0, "__init__")
+                    if init is not None:
+                        run_method(init, obj, call, ev, depth)
+                    elif call.args or call.keywords:
+                        return _oe.NOT_MODELLED
+                    return obj
+                return _oe.NOT_MODELLED
             cls_standin = ev.env.get(call.func.id) if isinstance(call.func, _ast.Name) else None
             if depth < max_depth and isinstance(cls_standin, _oe.Obj) and set(cls_standin.__dict__) == {"_cls"}:
                 # cls(...) inside a class method: `cls` is the class stand-in the method was entered with
